@@ -1,4 +1,9 @@
 import LitexProofs.Stream.Basic
+import LitexProofs.Stream.Conv
+import LitexProofs.Stream.Pipe
+import LitexProofs.Stream.Route
+import LitexProofs.Stream.Gearbox
+import LitexModel.Stream.NumG
 /-
   C03 — Stream elements deliver each token exactly once, in order, rightly transformed.
 
@@ -8,7 +13,7 @@ import LitexProofs.Stream.Basic
 -/
 namespace Litex.C03
 open Litex.Stream Litex.Stream.Elem
-variable {α : Type}
+variable {α β π : Type}
 
 /-- PipeValid: accepted = delivered ++ (token held in the output register). -/
 theorem pipeValid_token_rel (z : Tok α) (ins : List (In α)) :
@@ -66,5 +71,292 @@ example :
     let ins : List (In Nat) := [⟨true, ⟨5, true, false⟩, false⟩, ⟨true, ⟨6, false, true⟩, true⟩, ⟨false, ⟨9, true, true⟩, false⟩]
     (pipeValid z).accepted (pipeValid z).init ins = [⟨5, true, false⟩, ⟨6, false, true⟩] ∧
     (pipeValid z).delivered (pipeValid z).init ins = [⟨5, true, false⟩] := by decide
+
+/-- SyncFIFO(buffered=True), any depth: accepted = delivered ++ output register ++ inner queue, and the inner queue
+    never exceeds `depth` (so at most `depth + 1` tokens are in flight). -/
+theorem syncFifoBuffered_token_rel (depth : Nat) (z : Tok α) (ins : List (In α)) :
+    let e := syncFifoBuffered depth z
+    e.accepted e.init ins = e.delivered e.init ins ++ (e.runFrom e.init ins).inflight ∧
+    (e.runFrom e.init ins).q.length ≤ depth := by
+  have h := rel_run_init (syncFifoBuffered depth z) (fbRel depth)
+    (by simp [fbRel, syncFifoBuffered, FBState.inflight]) (syncFifoBuffered_step depth z) ins
+  exact ⟨h.2, h.1⟩
+
+/-! ### Up-converting elements: `_UpConverter`, `Converter` (up), `Pack`, `StrideConverter` (up)
+
+  Documented function = greedy chunking (`chunks r`: cut after `r` sub-words or after a sub-word with `last`);
+  a chunk becomes the word `wordOf`: lanes = the payloads in order, param = the last sub-word's param, first/last
+  OR-accumulated.  `upView` is the specified part of a delivered word: the first `valid_token_count` lanes
+  (lanes beyond it keep stale data, documented), param, first, last. -/
+
+/-- The chunking specification itself loses and reorders nothing and cuts only where documented. -/
+theorem chunks_spec_sound (r : Nat) (hr : 0 < r) (ts : List (Tok α)) :
+    (chunks r ts).flatten ++ chunkRest r ts = ts ∧
+    (∀ c ∈ chunks r ts, ChunkOk r c) ∧ (chunkRest r ts).length < r ∧ ∀ t ∈ chunkRest r ts, t.last = false :=
+  ⟨chunks_flatten r ts, chunks_shape r hr ts⟩
+
+/-- `_UpConverter(ratio = r)` / `Pack(n = r)`, every schedule, every token sequence (early `last` included):
+    the words of the complete chunks of the accepted sub-words = the delivered words ++ the word waiting in the
+    output register. -/
+theorem upConv_token_rel (r : Nat) (hr : 0 < r) (z : α) (p0 : π) (ins : List (In (α × π))) :
+    let e := upConv r z p0
+    (chunks r (e.accepted e.init ins)).map (wordOf p0) =
+      (e.delivered e.init ins).map upView ++ (e.runFrom e.init ins).inflight :=
+  (rel_run_init (upConv r z p0) (upRel r p0)
+    ⟨by simp [upConv, UpState.inflight], by simp [upConv], by simpa [upConv] using hr, by simp [upConv],
+     by simp [upConv], by simp [upConv]⟩
+    (upConv_step r hr z p0) ins).1
+
+/-- No word is lost, duplicated, reordered or altered: the delivered words are a prefix of the specified words and
+    at most one complete word waits inside; the sub-words not yet in a delivered or waiting word are exactly the
+    `demux` sub-words of the current partial chunk. -/
+theorem upConv_no_loss_dup_reorder (r : Nat) (hr : 0 < r) (z : α) (p0 : π) (ins : List (In (α × π))) :
+    let e := upConv r z p0
+    (e.delivered e.init ins).map upView <+: (chunks r (e.accepted e.init ins)).map (wordOf p0) ∧
+    (chunks r (e.accepted e.init ins)).length ≤ (e.delivered e.init ins).length + 1 ∧
+    (e.runFrom e.init ins).demux = (chunkRest r (e.accepted e.init ins)).length := by
+  have h := rel_run_init (upConv r z p0) (upRel r p0)
+    ⟨by simp [upConv, UpState.inflight], by simp [upConv], by simpa [upConv] using hr, by simp [upConv],
+     by simp [upConv], by simp [upConv]⟩
+    (upConv_step r hr z p0) ins
+  refine ⟨?_, ?_, h.2.1⟩
+  · rw [h.1]; exact List.prefix_append _ _
+  · have := congrArg List.length h.1
+    simp only [List.length_map, List.length_append, UpState.inflight] at this
+    split at this <;> simp at this <;> omega
+
+/-- `StrideConverter` (up-converting, fix 3f0170f): same relation, params included — the param register kept
+    beside the converter behaves like the one inside `Pack`. -/
+theorem strideUp_token_rel (r : Nat) (hr : 0 < r) (z : α) (p0 : π) (ins : List (In (α × π))) :
+    let e := strideUp r z p0
+    (chunks r (e.accepted e.init ins)).map (wordOf p0) =
+      (e.delivered e.init ins).map upView ++ (strideUpMap (e.runFrom e.init ins)).inflight := by
+  obtain ⟨h1, h2, h3⟩ := strideUp_sim r z p0 ins
+  simp only [h1, h2, h3]
+  exact upConv_token_rel r hr z p0 ins
+
+/-! ### Down-converting elements: `_DownConverter`, `Converter` (down), `Unpack`, `StrideConverter` (down)
+
+  These read the sink combinationally `r` times before accepting it, so the token relation needs the producer
+  contract of the stream protocol (`Elem.Held`: a token offered and not accepted is offered again unchanged).
+
+  Full statement (false without the contract, see the witness below):
+    ∀ ins, delivered ins = (accepted ins).flatMap (splitTok r z) ++ lanes already delivered of the held token -/
+
+/-- Under the producer contract: delivered = all lanes of every accepted token, in order, followed by the first
+    `mux` lanes of the token currently held on the sink. -/
+theorem downConv_token_rel_partial (r : Nat) (hr : 0 < r) (z : α) (ins : List (In (List α × π)))
+    (hheld : (downConv (π := π) r z).Held (downConv (π := π) r z).init none ins) :
+    let e := downConv (π := π) r z
+    e.delivered e.init ins =
+      (e.accepted e.init ins).flatMap (splitTok r z) ++
+        downPart r z (e.runFrom e.init ins) (e.oblAfter e.init none ins) ∧
+    e.runFrom e.init ins < r :=
+  let h := rel_run_held_init (downConv r z) (downRel r z)
+    ⟨by simpa [downConv] using hr, by simp [downConv], by simp [downPart]⟩
+    (fun s p a d i h hm => downConv_step r z s p a d i h hm) ins hheld
+  ⟨h.2.2, h.1⟩
+
+/-- Negative witness for the full statement: a producer that swaps its token in the middle of a word (ratio 2:
+    `[1,2]` offered, lane 0 taken, then `[3,4]` offered and accepted) gets `1,4` delivered, not the lanes of the
+    accepted token. -/
+example :
+    let e := downConv (α := Nat) (π := Unit) 2 0
+    let ins : List (In (List Nat × Unit)) :=
+      [⟨true, ⟨([1, 2], ()), false, false⟩, true⟩, ⟨true, ⟨([3, 4], ()), false, false⟩, true⟩]
+    e.delivered e.init ins ≠ (e.accepted e.init ins).flatMap (splitTok 2 0) := by decide
+
+/-! ### Gearbox
+
+  Bits in stream order.  `L` is the register size; the constructor's `io_lcm` (`ioLcm`) satisfies the side
+  conditions (`ioLcm_spec`). -/
+
+/-- `io_lcm` is a common multiple of both widths and holds at least two words of each side. -/
+theorem ioLcm_spec (i o : Nat) (hi : 0 < i) (ho : 0 < o) :
+    i ∣ ioLcm i o ∧ o ∣ ioLcm i o ∧ 2 * i ≤ ioLcm i o ∧ 2 * o ≤ ioLcm i o :=
+  ioLcm_facts i o hi ho
+
+/-- Gearbox, every schedule: the accepted bit stream = the delivered bit stream ++ the `level` bits held in the
+    circular register (so the delivered bits are a prefix of the accepted bits: nothing lost, duplicated,
+    reordered or altered), together with the level invariant
+    `(o·o_count + level) mod L = i·i_count`, `level < L`, counters in range. -/
+theorem gearbox_bits_rel (L i o : Nat) (hi : 0 < i) (ho : 0 < o) (hiL : i ∣ L) (hoL : o ∣ L) (hL : 0 < L)
+    (z : α) (ins : List (In (List α))) :
+    let e := gearbox L i o z
+    let s := e.runFrom e.init ins
+    bitsIn i z (e.accepted e.init ins) = bitsOut (e.delivered e.init ins) ++ inflightOf L z s.sr (o * s.ocount) s.level ∧
+    (inflightOf L z s.sr (o * s.ocount) s.level).length = s.level ∧
+    s.level < L ∧ (o * s.ocount + s.level) % L = i * s.icount ∧ s.icount < L / i ∧ s.ocount < L / o := by
+  have h := rel_run_init (gearbox L i o z) (gbRel L i o z)
+    ⟨by simp [gearbox], by simpa [gearbox] using Nat.div_pos (Nat.le_of_dvd hL hiL) hi,
+     by simpa [gearbox] using Nat.div_pos (Nat.le_of_dvd hL hoL) ho, by simpa [gearbox] using hL,
+     by simp [gearbox], by simp [gearbox, bitsIn, bitsOut, inflightOf]⟩
+    (gearbox_step L i o hi ho hiL hoL z) ins
+  obtain ⟨h1, h2, h3, h4, h5, h6⟩ := h
+  exact ⟨h6, by simp, h4, h5, h2, h3⟩
+
+theorem gearbox_prefix (L i o : Nat) (hi : 0 < i) (ho : 0 < o) (hiL : i ∣ L) (hoL : o ∣ L) (hL : 0 < L)
+    (z : α) (ins : List (In (List α))) :
+    let e := gearbox L i o z
+    bitsOut (e.delivered e.init ins) <+: bitsIn i z (e.accepted e.init ins) := by
+  have h := (gearbox_bits_rel L i o hi ho hiL hoL hL z ins).1
+  simp only at h ⊢
+  rw [h]
+  exact List.prefix_append _ _
+
+/-- No deadlock: whenever the register holds at least one word of each side (`i + o ≤ L`, guaranteed by
+    `ioLcm_spec`), in every state the sink is ready or the source is valid. -/
+theorem gearbox_no_deadlock (L i o : Nat) (hio : i + o ≤ L) (z : α) (s : GbState α) (x : In (List α)) :
+    ((gearbox L i o z).out s x).ready = true ∨ ((gearbox L i o z).out s x).valid = true := by
+  simp only [gearbox, Elem.out, decide_eq_true_eq]
+  omega
+
+/-! ### Routing: Multiplexer, Demultiplexer, Gate -/
+
+/-- Multiplexer(n), every input sequence (selector changes included): what the source delivers is, cycle by cycle,
+    what the selected sink accepts; a sink accepts only in cycles in which it is selected. -/
+theorem mux_token_rel (n : Nat) (z : Tok α) (ins : List (MuxIn α)) :
+    ins.flatMap (muxDel n z) = ins.flatMap (fun i => muxAccAt n z i.sel i) ∧
+    ∀ k, ins.flatMap (muxAccAt n z k) = (ins.filter (·.sel == k)).flatMap (muxDel n z) := by
+  refine ⟨by rw [show muxDel n z = fun i => muxAccAt n z i.sel i from funext (mux_cycle_sel n z)], ?_⟩
+  intro k
+  induction ins with
+  | nil => rfl
+  | cons i is ih =>
+    simp only [List.flatMap_cons, List.filter_cons]
+    by_cases hk : i.sel = k
+    · have hb : (i.sel == k) = true := by simp [hk]
+      rw [hb, if_pos rfl, List.flatMap_cons, ih, mux_cycle_sel, hk]
+    · have hb : (i.sel == k) = false := by simp [hk]
+      rw [hb, mux_cycle_other n z i k (Ne.symm hk), ih]
+      simp
+
+/-- Demultiplexer(n): what the sink hands over is, cycle by cycle, what the selected source delivers; a source
+    delivers only in cycles in which it is selected. -/
+theorem demux_token_rel (n : Nat) (z : Tok α) (ins : List (DemuxIn α)) :
+    ins.flatMap (demuxAcc n z) = ins.flatMap (fun i => demuxDelAt n z i.sel i) ∧
+    ∀ k, ins.flatMap (demuxDelAt n z k) = (ins.filter (·.sel == k)).flatMap (demuxAcc n z) := by
+  refine ⟨by rw [show demuxAcc n z = fun i => demuxDelAt n z i.sel i from funext fun i => (demux_cycle_sel n z i).symm], ?_⟩
+  intro k
+  induction ins with
+  | nil => rfl
+  | cons i is ih =>
+    simp only [List.flatMap_cons, List.filter_cons]
+    by_cases hk : i.sel = k
+    · have hb : (i.sel == k) = true := by simp [hk]
+      rw [hb, if_pos rfl, List.flatMap_cons, ih, ← demux_cycle_sel, hk]
+    · have hb : (i.sel == k) = false := by simp [hk]
+      rw [hb, demux_cycle_other n z i k (Ne.symm hk), ih]
+      simp
+
+/-- Gate: delivered = the tokens accepted while `enable` was set (payload unchanged); without
+    `sink_ready_when_disabled` no token is ever accepted while disabled, i.e. nothing is dropped. -/
+theorem gate_token_rel (srd : Bool) (z : α) (ins : List (In (α × Bool))) :
+    let e := gate srd z
+    e.delivered () ins = ((e.accepted () ins).filter (·.data.2)).map (mapTok (·.1)) ∧
+    (srd = false → e.delivered () ins = (e.accepted () ins).map (mapTok (·.1))) := by
+  have h := rel_run_init (gate srd z) (gateRel srd) ⟨rfl, by simp⟩ (gate_step srd z) ins
+  refine ⟨h.1, fun hs => ?_⟩
+  have hall := h.2 hs
+  rw [h.1, List.filter_eq_self.mpr hall]
+
+/-! ### Cast, Delay, Pipeline, BufferizeEndpoints -/
+
+/-- Cast (any combinational re-labelling `f` of the data): delivered = accepted with `f` applied. -/
+theorem cast_token_rel (f : α → β) (ins : List (In α)) :
+    (mapElem f).delivered () ins = ((mapElem f).accepted () ins).map (mapTok f) :=
+  rel_run_init (mapElem f) (mapRel f) rfl (mapElem_step f) ins
+
+/-- Delay(n) for every `n` (a `Pipeline` of `n` `Buffer(pipe_valid)` stages; `n = 0` is a wire): accepted =
+    delivered ++ at most `n` tokens in flight.  Obtained from `pipeValid_step` by `comp_rel`, by induction on `n`. -/
+theorem delay_token_rel (z : Tok α) (n : Nat) (ins : List (In α)) :
+    ∃ fl, (delay z n).accepted (delay z n).init ins = (delay z n).delivered (delay z n).init ins ++ fl ∧
+      fl.length ≤ n :=
+  delayRel_inflight n _ _ _
+    (rel_run_init (delay z n) (delayRel n) (delayRel_init z n) (delay_step z n) ins)
+
+/-- Pipeline of any two elements with identity-like relations `accepted = delivered ++ fl`, `|fl| ≤ cap`:
+    the composition has the same relation with capacity `capA + capB`. -/
+theorem pipeline_token_rel {σ τ : Type} (ea : Elem α α σ) (eb : Elem α α τ) (ca cb : Nat)
+    (Ra : σ → List (Tok α) → List (Tok α) → Prop) (Rb : τ → List (Tok α) → List (Tok α) → Prop)
+    (ha0 : Ra ea.init [] []) (hb0 : Rb eb.init [] [])
+    (ha : ∀ s x d i, Ra s x d → Ra (ea.step s i) (x ++ ea.accNow s i) (d ++ ea.delNow s i))
+    (hb : ∀ s x d i, Rb s x d → Rb (eb.step s i) (x ++ eb.accNow s i) (d ++ eb.delNow s i))
+    (hca : ∀ s x d, Ra s x d → ∃ fl, x = d ++ fl ∧ fl.length ≤ ca)
+    (hcb : ∀ s x d, Rb s x d → ∃ fl, x = d ++ fl ∧ fl.length ≤ cb)
+    (ins : List (In α)) :
+    ∃ fl, (ea.comp eb).accepted (ea.comp eb).init ins = (ea.comp eb).delivered (ea.comp eb).init ins ++ fl ∧
+      fl.length ≤ ca + cb := by
+  obtain ⟨mid, h1, h2⟩ := rel_run_init (ea.comp eb) (fun s x d => ∃ mid, Ra s.1 x mid ∧ Rb s.2 mid d)
+    ⟨[], ha0, hb0⟩ (comp_rel ea eb Ra Rb ha hb) ins
+  obtain ⟨fa, hfa, hla⟩ := hca _ _ _ h1
+  obtain ⟨fb, hfb, hlb⟩ := hcb _ _ _ h2
+  exact ⟨fb ++ fa, by rw [hfa, hfb, List.append_assoc], by simp; omega⟩
+
+/-- BufferizeEndpoints (sink and source buffered) around an `_UpConverter`: PipeValid ⟫ upConv ⟫ PipeValid.
+    The chunk words of what the outer sink accepted, minus what still sits in the sink buffer, = delivered words
+    ++ source buffer ++ converter output register. -/
+theorem bufferizedUp_token_rel (r : Nat) (hr : 0 < r) (ins : List (In (Nat × Nat))) :
+    let e := bufferizedUp r
+    let s := e.runFrom e.init ins
+    ∃ mid1 mid2,
+      e.accepted e.init ins = mid1 ++ s.1.inflight ∧
+      (chunks r mid1).map (wordOf 0) = mid2.map upView ++ s.2.1.inflight ∧
+      mid2 = e.delivered e.init ins ++ s.2.2.inflight := by
+  let pvA := pipeValid (α := Nat × Nat) ⟨(0, 0), false, false⟩
+  let up := upConv (α := Nat) (π := Nat) r 0 0
+  let pvB := pipeValid (α := UpWord Nat Nat) ⟨⟨List.replicate r 0, 0, 0⟩, false, false⟩
+  have hup0 : upRel r 0 up.init [] [] :=
+    ⟨by simp [up, upConv, UpState.inflight], by simp [up, upConv], by simpa [up, upConv] using hr,
+     by simp [up, upConv], by simp [up, upConv], by simp [up, upConv]⟩
+  have hinner := comp_rel up pvB (upRel r 0) pvRel (upConv_step r hr 0 0) (pipeValid_step _)
+  have h := rel_run_init (bufferizedUp r)
+    (fun s x d => ∃ m1, pvRel s.1 x m1 ∧ ∃ m2, upRel r 0 s.2.1 m1 m2 ∧ pvRel s.2.2 m2 d)
+    ⟨[], by simp [pvRel, bufferizedUp, comp, pipeValid, PVState.inflight], [], hup0,
+      by simp [pvRel, bufferizedUp, comp, pipeValid, PVState.inflight]⟩
+    (comp_rel pvA (up.comp pvB) pvRel (fun s x d => ∃ m2, upRel r 0 s.1 x m2 ∧ pvRel s.2 m2 d)
+      (pipeValid_step _) hinner) ins
+  obtain ⟨m1, h1, m2, h2, h3⟩ := h
+  exact ⟨m1, m2, h1, h2.1, h3⟩
+
+/-! ### Non-vacuity -/
+
+/-- Up-converter, ratio 3: four sub-words, the second with an early `last`; consumer stalls once.  Two words are
+    specified (one partial with 2 valid lanes, one cut by `last` again), one delivered, one waiting. -/
+example :
+    let e := upConv (α := Nat) (π := Unit) 3 0 ()
+    let ins : List (In (Nat × Unit)) :=
+      [⟨true, ⟨(5, ()), true, false⟩, false⟩, ⟨true, ⟨(6, ()), false, true⟩, false⟩,
+       ⟨true, ⟨(7, ()), true, true⟩, true⟩, ⟨false, ⟨(9, ()), true, true⟩, false⟩]
+    (e.delivered e.init ins).map upView = [⟨([5, 6], ()), true, true⟩] ∧
+    (chunks 3 (e.accepted e.init ins)).map (wordOf ()) = [⟨([5, 6], ()), true, true⟩, ⟨([7], ()), true, true⟩] := by
+  decide
+
+/-- Down-converter, ratio 2, a producer that honours the contract and a consumer that stalls. -/
+example :
+    let e := downConv (α := Nat) (π := Unit) 2 0
+    let ins : List (In (List Nat × Unit)) :=
+      [⟨true, ⟨([1, 2], ()), true, true⟩, true⟩, ⟨true, ⟨([1, 2], ()), true, true⟩, false⟩,
+       ⟨true, ⟨([1, 2], ()), true, true⟩, true⟩, ⟨true, ⟨([3, 4], ()), false, false⟩, true⟩]
+    e.Held e.init none ins ∧
+    e.delivered e.init ins = [⟨(1, ()), true, false⟩, ⟨(2, ()), false, true⟩, ⟨(3, ()), false, false⟩] := by
+  refine ⟨?_, by decide⟩
+  simp [Elem.Held, Elem.Meets, Elem.obl, Elem.out, Elem.step, downConv]
+
+/-- Gearbox 3 → 2 (L = 6): two words accepted (the second only once there is room), three 2-bit words leave in
+    order. -/
+example :
+    let e := gearbox (α := Bool) 6 3 2 false
+    let ins : List (In (List Bool)) :=
+      [⟨true, ⟨[true, false, true], false, false⟩, true⟩, ⟨true, ⟨[true, true, false], false, false⟩, true⟩,
+       ⟨true, ⟨[true, true, false], false, false⟩, true⟩, ⟨false, ⟨[], false, false⟩, true⟩,
+       ⟨false, ⟨[], false, false⟩, true⟩]
+    bitsOut (e.delivered e.init ins) = [true, false, true, true, true, false] ∧ ioLcm 3 2 = 6 := by decide
+
+/-- Gate with sink_ready_when_disabled: the token offered while disabled is accepted and dropped (by design). -/
+example :
+    let e := gate (α := Nat) true 0
+    let ins : List (In (Nat × Bool)) := [⟨true, ⟨(1, true), false, false⟩, true⟩, ⟨true, ⟨(2, false), false, false⟩, true⟩]
+    (e.accepted () ins).length = 2 ∧ e.delivered () ins = [⟨1, false, false⟩] := by decide
 
 end Litex.C03
